@@ -2,6 +2,7 @@ package receiver
 
 import (
 	"bytes"
+	"context"
 	"fmt"
 	"io"
 	"io/fs"
@@ -17,9 +18,13 @@ import (
 )
 
 // rsync/generator.c:generate_files()
-func (rt *Transfer) GenerateFiles(fileList []*File) error {
+func (rt *Transfer) GenerateFiles(ctx context.Context, fileList []*File) error {
 	phase := 0
 	for idx, f := range fileList {
+		if err := ctx.Err(); err != nil {
+			// The receiver failed: do not request any more files.
+			return err
+		}
 		if err := rt.recvGenerator(idx, f); err != nil {
 			return err
 		}
